@@ -105,3 +105,12 @@ def front_groups(props):
                         enforce=[fn], replace=repl, remove_bodies=[f for f in fam if f != fn and f not in repl], object_bits=12, bounded=False,
                         bound_note="(all dimensions symbolic)", timeout=900, mem_gb=16, slots=2))
     return gs
+
+
+def ech0_groups(props):
+    """echelonform.c: mzd_echelonize_pluq without full reduction (ghost-index family)"""
+    repl = ["mzd_init_window", "mzd_free", "mzp_init", "mzp_free", "mzd_ple", "mzd_set_ui", "mzd_clear_bits", "mzd_write_bit"]
+    return [Group(gid="S.mzd_echelonize_pluq.full0", props=list(props), harness="s_ech0.c", function="mzd_echelonize_pluq", layer="S", defines={},
+                  tus=["misc", "/verif/stubs/libm_any.c"], native_tus=[], enforce=["mzd_echelonize_pluq"], replace=repl, loop_contracts=True, remove_bodies=["mzd_echelonize", "mzd_echelonize_m4ri"],
+                  object_bits=12, bounded=False, bound_note="(all dimensions and the rank symbolic; full == 0; loops closed by invariants; permutation entry range at a ghost index)",
+                  timeout=900, mem_gb=16, slots=2)]
